@@ -46,6 +46,8 @@ except ImportError:
 Self = TypeVar("Self", bound="AsyncBaseClient")
 
 GRAPHQL_TRANSPORT_WS = "graphql-transport-ws"
+# returned by _handle_ws_message when the server completed the subscription
+_WS_COMPLETE: Dict[str, Any] = {}
 
 
 class GraphQLTransportWSMessageType(str, enum.Enum):
@@ -181,6 +183,8 @@ class AsyncBaseClient:
 
             async for message in websocket:
                 data = await self._handle_ws_message(message, websocket)
+                if data is _WS_COMPLETE:
+                    break
                 if data:
                     yield data
 
@@ -360,7 +364,9 @@ class AsyncBaseClient:
 
         if type_ == GraphQLTransportWSMessageType.COMPLETE:
             await websocket.close()
-        elif type_ == GraphQLTransportWSMessageType.PING:
+            return _WS_COMPLETE
+
+        if type_ == GraphQLTransportWSMessageType.PING:
             await websocket.send(
                 json.dumps({"type": GraphQLTransportWSMessageType.PONG.value})
             )
